@@ -32,7 +32,7 @@ CLAIMED = {
 }
 CLAIMED['C05'] = {
     'engine': 'instance-edges', 'level': 'model_checking', 'design_ref': 'DESIGN.md section 4, C05',
-    'technique': 'TLA+ reference of IEEE 1588 Fig. 33-35 (module Bmca) + TLC case enumeration + replay of every case on the real PtpInstance',
+    'technique': 'TLA+ reference of IEEE 1588 Fig. 33-35 (modules BmcaCompare, Bmca) whose comparison laws are proved for all integers by Apalache + TLC case enumeration + replay of every case on the real PtpInstance + validation of recorded executions (TraceInstance.tla)',
     'text': ('Module Bmca is the data set comparison and state decision transcribed from the standard; TLC checks its laws (antisymmetry, strictness, '
              'ties only as error cases, transitivity, no cycles) on a finite domain and enumerates every case of the lattice own clockClass x prior port '
              'states x qualified candidates per port x host port order (quick about 85 000 cases, thorough about 700 000) with invariants ParentIsBest, '
@@ -140,7 +140,7 @@ CLAIMED['C04'] = {
 }
 CLAIMED['C16'] = {
     'engine': 'reference-vectors', 'level': 'exploration', 'design_ref': 'DESIGN.md section 4, C16',
-    'technique': 'mixed-radix limb reference in TLA+ (no wide integers) evaluated by TLC on a boundary lattice with its algebraic laws as invariant; each vector applied to the real operators in debug and release profile; wire conversions observed through a real port',
+    'technique': 'mixed-radix limb reference in TLA+ (modules TimeLimbs, TimeArith), proved equal to integer arithmetic for all magnitudes by Apalache, evaluated by TLC on a boundary lattice with its algebraic laws as invariant; each vector applied to the real operators in debug and release profile; wire conversions observed through a real port',
     'text': ('TimeArith.tla represents times and durations as limbs (2^24 s, s, ns, 2^-16 ns, 2^-32 ns) with schoolbook carries; TLC checks (t+d)-d = t, (t+d)-t = d, wire split + '
              'sub-nanosecond correction = t to 2^-16 ns and the interval round trip on every lattice vector and prints the results; statime\'s Time/Duration must give bit-identical '
              'results in both profiles, must not wrap below zero, Follow_Up frames emitted by a real port must carry the reference\'s wire split, exported asymmetry the reference\'s '
